@@ -86,6 +86,7 @@ class SimApp(BaseApplication):
             w.intended[tcur.proc.pid] = (intended.get("user"), intended.get("group"))
         self.cfg.set("logger_class", SimLogger)
         self.cfg.set("worker_class", w.worker_class)
+        self.cfg.set("post_worker_init", _post_worker_init)
         self.cfg.env_orig = dict(w.base_env)
         s = facade.sim()
         t = current_task()
@@ -160,6 +161,15 @@ class SimArbiter(Arbiter):
             self._forking = None
 
 
+def _post_worker_init(worker):
+    """server hook of every simulated configuration: the last step of a worker's boot; a script can make it raise"""
+    sc = worker.script() if hasattr(worker, "script") else {}
+    if sc.get("boot") == "post_init3":
+        t = current_task()
+        SimLogger.WORLD.boot_failures.append((t.proc.pid, 3, facade.sim().now))
+        raise RuntimeError("scripted post_worker_init failure")
+
+
 class StubWorker(wbase.Worker):
     """Scripted worker: the real Worker.__init__ (WorkerTmp, max_requests) and the real init_process boot it;
     run() follows the script the world holds for this worker's age (DESIGN Appendix C)."""
@@ -189,8 +199,10 @@ class StubWorker(wbase.Worker):
         if sc.get("boot_delay"):
             seams.TIME.sleep(sc["boot_delay"])
         if boot == "exit3":
+            w.boot_failures.append((t.proc.pid, 3, facade.sim().now))
             raise RuntimeError("scripted boot failure")
         if boot == "exit4":
+            w.boot_failures.append((t.proc.pid, 4, facade.sim().now))
             raise AppImportError("scripted application import failure")
         self.wsgi = w.wsgi_app
 
@@ -285,6 +297,7 @@ class World:
         self.on_app_load = None
         self.boot_fail_under = None       # predicate(worker process) -> the (stub) worker fails to boot with boot_fail_kind
         self.boot_fail_kind = "exit3"
+        self.boot_failures = []           # (worker pid, exit status it owes, time): scripted failures during init_process
         self.wsgi_app = _default_app
         self.served = []             # (time, worker pid, age, marker)
         self.forks = []              # (time, parent pid, child pid, kind)
